@@ -216,7 +216,10 @@ where
     type Stream = Self;
 
     fn into_parts(self) -> (Vector<VectorDiffContainerStreamElement<S>>, Self::Stream) {
-        (self.buffered_vector.clone(), self)
+        // Hand out the current (limited) view, not the unlimited buffer.
+        let values = self.buffered_vector.clone().truncate_from_end(self.limit);
+
+        (values, self)
     }
 }
 
